@@ -143,7 +143,9 @@ def run_harness(ctx, grp, h):
             rec["failed_checks"] = [{"name": c["name"], "desc": c["desc"], "loc": c["loc"]} for c in real[:8]]
             hexinp, kind, kdesc = kani.playback_inputs(text)
             rec["counterexample_hex"] = hexinp
-            if hexinp is None:
+            if any(c["desc"] == "VERIF_UF_CAPACITY" for c in real):
+                rec.update(verdict="INCONCLUSIVE", reason="harness defect: uninterpreted-function log capacity exceeded (" + real[0]["loc"] + ")")
+            elif hexinp is None:
                 rec.update(verdict="INCONCLUSIVE", reason="FAILURE without extractable counterexample")
             else:
                 rp = native_replay(ctx, grp, short, hexinp)
@@ -153,6 +155,8 @@ def run_harness(ctx, grp, h):
                     rec.update(verdict="VIOLATION", reason=f"counterexample reproduces natively ({', '.join(p + ':' + rp[p] for p in bad)})")
                 else:
                     rec.update(verdict="INCONCLUSIVE", reason=f"solver counterexample does not reproduce natively: {rp}")
+    elif r["oom"]:
+        rec.update(verdict="INCONCLUSIVE", reason="out of memory (solver)")
     elif undet or r["unsupported_reachable"]:
         rec.update(verdict="INCONCLUSIVE", reason="undetermined / unsupported construct reachable")
     elif r["verification"] != "SUCCESSFUL":
@@ -274,25 +278,36 @@ def main():
             engine_errors.append(f"state-holding construct not covered by a C15 harness: {f}")
     try:
         groups = []
-        for gi, (vname, files) in enumerate(plan.groups_for(prop, a.tier, seed)):
+        for gi, ent in enumerate(plan.groups_for(prop, a.tier, seed)):
+            vname, files = ent[0], ent[1]
+            opts = ent[2] if len(ent) > 2 else {}
+            # properties whose harnesses count for `prop` in this group (default: prop itself)
+            accept = set([prop] + list(opts.get("include_props", [])))
+            adopted = bool(opts.get("include_props"))
             variant = plan.VARIANTS[vname]
             hfiles = [os.path.join(VERIF, "harness", f) for f in files]
             hs = []
             for hf in hfiles:
                 for h in parse_meta(hf):
                     h["_mod"] = shadow.harness_mod_name(hf)
-                    if h.get("variants") and vname not in h["variants"].split(","):
-                        continue
-                    if h.get("prop") and prop not in h["prop"].split(","):
+                    # variants= restricts a harness to the listed variants; in an adopting group (feature build
+                    # "x+feat" re-running the harnesses of other properties) the base variant "x" counts as well
+                    if h.get("variants"):
+                        allowed = h["variants"].split(",")
+                        if vname not in allowed and not (adopted and vname.split("+")[0] in allowed):
+                            continue
+                    if h.get("prop") and not (accept & set(h["prop"].split(","))):
                         continue
                     hs.append(h)
             # harness modules injected inside private modules of the crate (variant["inner"])
             for rel_src, modpath, hrel in variant.get("inner", []):
                 for h in parse_meta(os.path.join(VERIF, "harness", hrel)):
                     h["_mod"] = shadow.inner_mod_path(modpath, hrel)
-                    if h.get("variants") and vname not in h["variants"].split(","):
-                        continue
-                    if h.get("prop") and prop not in h["prop"].split(","):
+                    if h.get("variants"):
+                        allowed = h["variants"].split(",")
+                        if vname not in allowed and not (adopted and vname.split("+")[0] in allowed):
+                            continue
+                    if h.get("prop") and not (accept & set(h["prop"].split(","))):
                         continue
                     hs.append(h)
             sel = [h for h in hs if not (a.tier == "quick" and h["tier"] != "quick") and not (a.only and a.only not in h["name"])]
